@@ -299,6 +299,7 @@ def build_trace(sc: dict, gens: list, ref: Reference):
         first_listing = True
         waited = False
         pending = False      # an asynchronous save may still be in flight in THIS process
+        user_save = False    # between the driver's markers: save(label) called by the user, not by solve()
         op_restore = next((o for o in g["ops"] if o["op"] in ("restore", "load", "load_same")), None)
         for idx, ev in enumerate(events):
             st = ev.get("state") or {}
@@ -327,6 +328,15 @@ def build_trace(sc: dict, gens: list, ref: Reference):
                 conv_in_call = conv_in_call or rec["conv"]
             elif name == "converged":
                 continue
+            elif name == "x_user_save_begin":
+                user_save = True
+                continue
+            elif name == "x_user_save_end":
+                user_save = False
+                continue
+            elif name == "save_call" and user_save:
+                pending = bool(sc["isasync"])
+                rec["e"], rec["step"] = "user_save", ev["step"]
             elif name == "save_call":
                 pending = bool(sc["isasync"])
                 rec["e"], rec["step"] = "save_call", ev["step"]
